@@ -335,6 +335,7 @@ package websocket
 //@ ensures [payload-nonneg] lr.c.msgReader.payloadLength >= 0
 //@ ensures [dict-released-only] lr.c.msgReader.dict == old(lr.c.msgReader.dict) || lr.c.msgReader.dict == nil
 //@ ensures [dict-buf-kept] lr.c.msgReader.dict != nil ==> gvcSameSlice(lr.c.msgReader.dict.buf, old(lr.c.msgReader.dict.buf))
+//@ ensures [readmu-released-only-closed] {C05} !gvcHeld(lr.c.readMu.ch) ==> gvcClosed(lr.c.closed) || !old(gvcHeld(lr.c.readMu.ch))
 
 //@ func (*msgReader).Read
 //@ tags C04 C03 C08
@@ -343,6 +344,9 @@ package websocket
 //@ ensures [n] 0 <= n && n <= len(p)
 //@ ensures [eof-complete] {C04} errIs(err, io.EOF) ==> mr.fin && mr.payloadLength == 0
 //@ ensures [closed-fails] {C06} old(gvcClosed(mr.c.closed)) ==> err != nil
+//@ ensures [budget] {C08} old(mr.limitReader.n) > 0 ==> int64(n) <= old(mr.limitReader.n) && mr.limitReader.n == old(mr.limitReader.n)-int64(n)
+//@ ensures [exhausted-fails] {C08} old(mr.limitReader.n) == 0 ==> n == 0 && err != nil && !errIs(err, io.EOF)
+//@ ensures [unlimited] {C08} old(mr.limitReader.n) < 0 ==> mr.limitReader.n == old(mr.limitReader.n)
 
 // ---------------------------------------------------------------------------
 // compress.go: the 32 KiB sliding window kept as inflate dictionary (C01)
@@ -832,3 +836,29 @@ package websocket
 //@ ensures [no-conn-on-error] err != nil ==> result0 == nil
 //@ ensures [conn-only-if-valid] err == nil ==> result0 != nil && result1 != nil && specValidResponse(specDialSubprotocols(opts), specKeyFrom(specRandSrc(rand), old(ghrd(specRandSrc(rand)).pos)), result1)
 //@ ensures [client-role] err == nil ==> result0.client
+// ---------------------------------------------------------------------------
+// Lemmas over the specification functions (consistency of the encoder and decoder
+// specifications written from the RFC; links of C01)
+
+//@ lemma hdrRoundTrip(r io.Reader, p int, h header)
+//@ tags C01 C02 C03
+//@ requires h.payloadLength >= 0 && 0 <= h.opcode && h.opcode <= 15 && (!h.masked ==> h.maskKey == 0) && 0 <= p && p < 1<<60
+//@ requires forall(0, specHdrLen(h), func(k int) bool { return rdin(r, p+k) == specHdrByte(h, k) })
+//@ ensures [decodes-to-itself] specDecoded(r, p, h)
+//@ ensures [same-length] specDecodedLen(r, p) == specHdrLen(h)
+
+//@ lemma maskInvolution(key uint32, i int, b byte)
+//@ tags C01 C17
+//@ ensures [involution] (b^specMaskByte(key, i))^specMaskByte(key, i) == b
+
+//@ lemma maskChunks(key uint32, a int, b int, i int)
+//@ tags C01 C17
+//@ requires 0 <= a && 0 <= b && 0 <= i && a < 1<<60 && b < 1<<60 && i < 1<<60
+//@ ensures [rot-composes] specRot(specRot(key, a), b) == specRot(key, a+b)
+//@ ensures [chunk] specMaskByte(specRot(key, a), i) == specMaskByte(key, a+i)
+//@ ensures [unrot] specUnrot(specRot(key, a), a) == key
+
+//@ lemma closeCodeRoundTrip(code int)
+//@ tags C01 C06
+//@ requires 0 <= code && code < 65536
+//@ ensures [be16] specBE16(byte(code>>8), byte(code)) == code
